@@ -4,6 +4,7 @@ import (
 	"bytes"
 	"fmt"
 	"io"
+	"time"
 
 	"github.com/ontio/ontology-crypto/keypair"
 	"github.com/polynetwork/poly/common"
@@ -389,10 +390,11 @@ func init() {
 		Real:        []string{"p2pserver/message/types WriteMessage/ReadMessage/MakeEmptyMessage and all 16 message types", "p2pserver/common.Checksum", "core/types decoders reached through tx/block/headers frames", "ConsensusPayload (de)serialisation"},
 		Stub:        []string{"TCP link (simulated reader: chunking, stalls, injected I/O error, early EOF)", "peer / message router (frames are decoded, not dispatched)"},
 		Assumptions: []string{"checksum collisions (2^-32 per corrupted payload) are decided by the model reader, not assumed away", "allocation guard: ReadMessage may allocate at most the payload limit (30 MiB) + 1 MiB before it verifies the checksum; the figure comes from the task statement, the property text only promises rejection", "counts in (2^16, 2^46) reaching an unguarded make() in the transaction decoder are not executed (process abort); counted as dangerous_count_not_executed"},
-		QuickRuns:   2000, ThoroughRuns: 120000, QuickCap: 60, ThoroughCap: 800,
+		QuickRuns:   1600, ThoroughRuns: 100000, QuickCap: 60, ThoroughCap: 800,
 		RequiredProbes: []string{"kind_version", "kind_verack", "kind_getaddr", "kind_addr", "kind_ping", "kind_pong", "kind_getheaders", "kind_headers", "kind_inv", "kind_getdata", "kind_block", "kind_tx", "kind_consensus", "kind_getblocks", "kind_notfound", "kind_disconnect", "cmd_corrupted_to_other_known_command", "cmd_padding_corrupted", "length_consumes_next_frame", "length_above_limit_rejected", "checksum_field_corrupted", "short_read_inside_header", "spliced_second_frame_ok", "payload_count_huge"},
 		Generate:       genC05,
 		Execute:        execC05,
+		NoMinimise:     noMin,
 	})
 }
 
@@ -579,6 +581,7 @@ func execC05(run *kernel.Run) {
 			continue
 		}
 		run.Steps++
+		t0 := time.Now()
 		salt := uint64(st.Arg(0))
 		rng := kernel.NewRNG(kernel.Derive(run.Plan.Seed, "c05", salt))
 		kind := amod(st.Arg(1), len(p2pKinds))
@@ -876,6 +879,7 @@ func execC05(run *kernel.Run) {
 				}
 			}
 		}
+		globalTimer.add(c05ModeNames[mode]+"/"+mc.cmd, t0)
 		out := fmt.Sprintf("%s payload=%d mode=%s evals=%d verdicts=%x", mc.cmd, len(mc.payload), c05ModeNames[mode], c.evals-ev0, sha(c.digest)[:6])
 		run.Logf("step %d %s", i, out)
 		run.State([]byte(out))
@@ -889,6 +893,7 @@ func execC05(run *kernel.Run) {
 	_ = kindsSeen
 	run.Probes["__evals"] = c.evals
 	run.Sample = sample
+	globalTimer.report("C05")
 }
 
 func imax(a, b int) int {
